@@ -130,6 +130,9 @@ def gen_init(rng, a):
             a.init = sorted(a.init, key=lambda t: argh.conv(et, t))
         if c == "pqueue":
             a.init = sorted(a.init, key=lambda t: argh.conv(et, t), reverse=True)
+        if c == "seq" and rng.random() < 0.25:
+            # clear-before-assign: the earlier content is discarded once, at the first use - whatever it was (also nothing)
+            a.clear = True
 
 
 def add_rules(rng, cfg, profile):
